@@ -194,3 +194,12 @@ CHECKS["C06"] = dict(
     level_text="Metamorphic random testing: every case is its own control; pause points, sides, triggers and the interleaving of in-flight messages with the resume are generated. Two defects found and fixed, two recorded.",
     level_note="Trusts the uninterrupted run as reference. Schedule freedom inside one harness step is the Go scheduler's (GOMAXPROCS=1); replays are repeated 10x.",
     technique="rapid metamorphic testing (paused vs uninterrupted run) in a synctest bubble", design_ref="DESIGN.md §4 C06")
+
+CHECKS["C20"] = dict(
+    pkg="props/c20", level="exploration", gomaxprocs=1, replay_reps=5,
+    rule="2-3 requests from one real requestor to one real responder over one generated DAG (each rooted at the DAG root or at one of the three blocks below it, so their DAGs overlap; the responder holds everything, the requestor a generated subset; one case in four uses dedup-by-key with own stores), issued all at once, staggered (a later request starts after 1-7 deliveries) or at generated points of an operation list of up to 24 {deliver the oldest message of a chosen direction, issue request i, open a gate, let 150 ms pass}; relative speeds come from per-request stalls: the responder's n-th storage read for the request blocks, the requestor's executor for the request stalls in its block hook after block n, until a gate operation; worker limits {default,1,2} on both sides. Every request is also run alone from the same initial stores. Oracle (metamorphic): each request's delivered (path,node,last-block) sequence, error multiset and channel closure equal its run-alone outcome, and every block its store holds after the run-alone is in its store after the concurrent run. Non-trivial: the responder actually withheld a block from one request because it had transmitted it for another (observed on the wire). Cases in the known-finding class are excluded by construction and counted.",
+    assumptions=_SIM_ASSUME + ["the responder holds the whole DAG (keeps the skip-count finding of C02 out of this check)", "run-alone outcome on the same tree is the reference"],
+    quick=dict(shards=2, timeout=400), thorough=dict(shards=16, timeout=3000),
+    level_text="Metamorphic random testing of concurrent overlapping requests against their run-alone outcomes, with generated relative speeds; one protocol-level defect recorded.",
+    level_note="Trusts the run-alone outcome as reference; intra-step interleavings are the Go scheduler's.",
+    technique="rapid metamorphic testing (concurrent vs run-alone) in a synctest bubble", design_ref="DESIGN.md §4 C20")
